@@ -36,6 +36,7 @@ pub type LehmerMatrix = Matrix;
 impl Matrix {
 //@ import lehmer IDENTITY
 //@ import lehmer apply
+//@ import lehmer from
 }
 
 // signed cofactor with implicit sign: magnitude t, negative iff neg
